@@ -59,6 +59,28 @@ def mirror_dist(x0, y0, x1, y1, x2, y2):
     return math.sqrt((x0 - x1 - t * (x2 - x1)) ** 2 + (y0 - y1 - t * (y2 - y1)) ** 2)
 
 
+def near(a, b, abs_):
+    """|a - b| <= 1e-9 x the larger magnitude + abs_ (engine.close has a floor of 1e-9, too coarse for distances of 1e-5)"""
+    a, b = float(a), float(b)
+    if a != a or b != b:
+        return a != a and b != b
+    if math.isinf(a) or math.isinf(b):
+        return a == b
+    return abs(a - b) <= 1e-9 * max(abs(a), abs(b)) + abs_
+
+
+def dist_slack(p):
+    """absolute slack for a distance: the projected point is rounded at the magnitude M of the coordinates (~1e-16 M); 1e-9 at most, as before"""
+    return min(1e-9, 1e-12 * max(1.0, max(abs(v) for v in p)))
+
+
+def area_slack(p):
+    """absolute slack for a triangle area: a coordinate difference carries ~1e-16 M and is multiplied by a difference of at most D; 1e-9 at most, as before"""
+    m = max(1.0, max(abs(v) for v in p))
+    d = max(abs(a - b) for a in p for b in p)
+    return min(1e-9, 1e-14 * m * d)
+
+
 def fv(v):
     """case value -> float/int: non-finite numbers are stored as strings in cases (JSON)"""
     return float(v) if isinstance(v, str) else v
@@ -498,9 +520,9 @@ class P(Prop):
                         out.append({"kind": "trk", "algo": algo, "xs": [q[0] for q in pts], "ys": [q[1] for q in pts], "tol": tol,
                                     "uid": 7, "tid": 9, "base": 5, "names": ["tag", "w"], "rows": [[i, 2.5] for i in range(n)],
                                     "via": "direct", "pre": [], "style": "lattice"})
-        for _ in range(6000 if tier == "quick" else 60000):
+        for _ in range(8000 if tier == "quick" else 60000):
             out.append(self.rand_trk(rng))
-        for _ in range(1500 if tier == "quick" else 15000):
+        for _ in range(2500 if tier == "quick" else 15000):
             out.append(self.rand_trk(rng, long=True))
         for _ in range(1500 if tier == "quick" else 10000):
             out.append(self.wild_case(rng))
@@ -537,7 +559,11 @@ class P(Prop):
                         "via": rng.choice(["simplify", "direct"]), "af": rng.random() < 0.2})
         for _ in range(3000 if tier == "quick" else 30000):
             r = rng.random()
-            if r < 0.5:
+            if r < 0.15:                                     # small units around an origin (differences 1e-6 .. 1e-3)
+                h = rng.choice(SMALL_UNITS)
+                ox, oy = rng.choice(SMALL_ORIGINS)
+                v = [(ox if j % 2 == 0 else oy) + rng.randrange(-6, 7) * h for j in range(6)]
+            elif r < 0.5:
                 v = [rng.randrange(-4, 5) for _ in range(6)]
             elif r < 0.75:
                 v = [rng.randrange(-16, 17) / 4.0 for _ in range(6)]
@@ -901,7 +927,7 @@ class P(Prop):
             sq = parse_rat(model_out["sq"])
             if sq != seg_d2((p[0], p[1]), (p[2], p[3]), (p[4], p[5])):
                 return "the harness' oracle and the Lean specification distSegSq differ on %s: %s" % (case["p"], sq)
-            if not close(impl_out["v"], math.sqrt(sq), 1e-9, 1e-9):
+            if not near(impl_out["v"], math.sqrt(sq), dist_slack(case["p"])):
                 return "impl=%r, exact model distance %r" % (impl_out["v"], math.sqrt(sq))
         if case["kind"] in ("dist", "area"):
             return None if close(impl_out["v"], model_out["v"], 1e-12) else "impl=%r model=%r" % (impl_out["v"], model_out["v"])
@@ -922,7 +948,7 @@ class P(Prop):
                 return "distance_to_segment%s raised %s" % (tuple(case["p"]), out["err"])
             p = [F(v) for v in case["p"]]
             want = math.sqrt(seg_d2((p[0], p[1]), (p[2], p[3]), (p[4], p[5])))
-            if not close(out["v"], want, 1e-9, 1e-9):
+            if not near(out["v"], want, dist_slack(case["p"])):
                 return "distance_to_segment%s = %r, the distance to the closed segment is %r" % (tuple(case["p"]), out["v"], want)
             if (p[0], p[1]) == (p[2], p[3]) and out["v"] != 0:
                 # hypothesis of dp_total_of_self_distance on the implementation's floats: needed for termination
@@ -933,7 +959,7 @@ class P(Prop):
                 return "triangle_area raised %s" % out["err"]
             p = [F(v) for v in case["p"]]
             want = abs((p[2] - p[0]) * (p[5] - p[1]) - (p[4] - p[0]) * (p[3] - p[1])) / 2
-            if not close(out["v"], float(want), 1e-9, 1e-9):
+            if not near(out["v"], float(want), area_slack(case["p"])):
                 return "triangle_area%s = %r, expected %r" % (tuple(case["p"]), out["v"], float(want))
             return None
         if k == "mode":
